@@ -170,6 +170,14 @@ func (g *gen) uriGrammar(n int) {
 // all 5x3 scheme/transport combinations of hand-made URI values, IPv4 / IPv6 / name hosts (a name cannot be used with
 // DTLS offline: DialURI resolves it with the system resolver before dialling)
 func (g *gen) uriDial() {
+	// secure schemes over TCP to IP-literal hosts with certificate verification on (the server's certificate names
+	// only that address)
+	for i, h := range []string{"127.0.0.1", "192.0.2.7", "::1", "2001:db8::7"} {
+		for j, sp := range [][2]int{{2, 2}, {4, 2}} {
+			g.caseMark("uri-dialverify", 2*i+j)
+			g.emit("URI dialverify %d %d %s %d", sp[0], sp[1], showHex([]byte(h)), 5349)
+		}
+	}
 	hosts := []struct{ h, hint string }{{"127.0.0.1", "ip"}, {"::1", "ip"}, {"stun.example.org", "host"},
 		{"turn.other.example", "host"}, {"third.example.net", "host"}}
 	cnt := 0
